@@ -10,9 +10,9 @@ def tr(freq, gmt, n, tier, aligned=False, timeout=280, tzset=False):
              bounds='%s rotation%s, interval 1..3, %s; start instant any nanosecond of a 4-day window; %d statement(s) with non-decreasing timestamps and gaps of 0..3 periods each' % (FN[freq], ' at any HH:MM' if freq == 1 else '', 'GMT' if gmt else ('a local zone at UTC-5 / UTC+5:30 / UTC+5:45' if tzset else 'a local zone at any quarter-hour offset -14h..+14h'), n),
              what='real _calculate_initial_rotation_tp == independent oracle (next minute/hour boundary or next HH:MM in the sink zone, strictly later); real _time_rotation rotates exactly when ts >= next point, names the new file after that statement, and sets the next point' + (' on the configured grid: first point + k periods, skipping empty periods'))
 QUERIES = [tr(2, True, 2, 'quick'), tr(2, False, 1, 'quick', tzset=True), tr(2, True, 1, 'quick'), tr(3, True, 1, 'thorough', timeout=1700), tr(1, True, 1, 'thorough', timeout=1700), tr(1, False, 1, 'thorough', tzset=True, timeout=1700),
-           tr(2, False, 1, 'thorough', timeout=1700), tr(1, False, 1, 'thorough', timeout=1700),
-           tr(3, False, 1, 'thorough', timeout=1700), tr(1, True, 2, 'thorough', timeout=1700), tr(3, True, 2, 'thorough', timeout=1700)]
-BOUNDS = 'quick: hourly rotation (GMT and three local offsets), <= 2 statements; thorough: also daily and minutely, any quarter-hour offset'
+           tr(2, False, 1, 'thorough', timeout=1700), tr(1, False, 1, 'unregistered', timeout=1700),   # daily/minutely with ANY quarter-hour offset: no verdict in 1700 s
+           tr(3, False, 1, 'unregistered', timeout=1700), tr(3, False, 1, 'thorough', tzset=True, timeout=1700), tr(1, True, 2, 'thorough', timeout=1700), tr(3, True, 2, 'thorough', timeout=1700)]
+BOUNDS = 'quick: hourly rotation (GMT and three local offsets), <= 2 statements; thorough: also daily and minutely (GMT and three local offsets), hourly at any quarter-hour offset'
 OUTSIDE = 'file naming strings, renames, backup limit and the composition with size rotation (file system and std::filesystem::path: not encoded); DST transitions inside a run; the tz database'
 ASSUMPTIONS = ['libc gmtime_r/timegm/localtime_r/mktime = rt/m_time.c (exact h:m:s + day count; one fixed zone offset per run, multiple of 900 s)', '_rotate_files replaced by a recording hook']
 MANIFEST = {
